@@ -116,10 +116,10 @@ def imports_of(sx):
     return sorted((0 if e[0] == "none" else int(e[0]), int(e[1])) for e in l)
 
 
-def run(pairs, abort=False):
+def run(pairs, abort=False, serial=False):
     """pairs: list of (patch_name, patch_bytes, file_name, file_bytes) -> list of result dicts"""
     reqs = [{"patch": {"name": pn, "src": b64(ps)}, "file": {"name": fn, "src": b64(fs)}} for pn, ps, fn, fs in pairs]
-    impl = vlib.harness("engine", {"cases": reqs})["results"]
+    impl = vlib.harness("engine", {"cases": reqs, "serial": serial})["results"]
     cases, idx = [], []
     for i, r in enumerate(impl):
         if r.get("panic") or r["load_err"] or r["parse_err"] or not r["case"]:
